@@ -384,6 +384,12 @@ def run_shard(i, n, tier, seed, m):
             case["params"]["series"] = True
         m.case(case, canon=[t, sorted((a, repr(b)) for a, b in params.items()), case["kind"], case["n"], case["seed"]], nontrivial=True)
         judge(case, m)
+    cross(i, n, tier, seed, m)
+
+
+def cross(i, n, tier, seed, m):
+    """The same monitors watching other properties' workloads (see core.cross_workloads)."""
+    core.cross_workloads(m, DECIDING, ['C06', 'C08', 'C10'], tier, seed, i, n, 400 if tier == "quick" else 4000)
 
 
 def replay(rec, m):
